@@ -642,6 +642,10 @@ class RTCDtlsTransport(AsyncIOEventEmitter):
         self.__rx_bytes += len(data)
         self.__rx_packets += 1
 
+        if not data:
+            # an empty datagram is neither DTLS nor SRTP / SRTCP
+            return
+
         first_byte = data[0]
         if first_byte > 19 and first_byte < 64:
             # DTLS
